@@ -97,12 +97,17 @@ def wf_tree(roots) -> bool:
 
 
 def ids_unique(roots) -> bool:
-    ids = [GRID_ID]
+    """Component ids are distinct.  A battery may be connected to several inverters (shared batteries),
+    so the same battery id may occur in several `bats` lists - but not twice in one, and never as the
+    id of another component."""
+    ids, bats = [GRID_ID], set()
     for n in walk(roots):
         ids.append(n["id"])
         if n["k"] == "B":
-            ids += n["bats"]
-    return len(ids) == len(set(ids))
+            if len(n["bats"]) != len(set(n["bats"])):
+                return False
+            bats.update(n["bats"])
+    return len(ids) == len(set(ids)) and not (bats & set(ids))
 
 
 # ----------------------------------------------------------------------------- real implementation
@@ -233,19 +238,33 @@ def _observe(engine, rd, depth=0):
 
 
 def device_ids(roots):
-    bats = sorted(b for n in walk(roots) if n["k"] == "B" for b in n["bats"])
+    bats = sorted({b for n in walk(roots) if n["k"] == "B" for b in n["bats"]})
     pv = sorted(n["id"] for n in walk(roots) if n["k"] == "P")
     ev = sorted(n["id"] for n in walk(roots) if n["k"] == "E")
     return bats, pv, ev
 
 
 def sel_of(case):
-    """The inverter subsets of the two subset-pool formulas (default: every inverter)."""
-    _, pv, _ = device_ids(case["roots"])
-    binv = sorted(n["id"] for n in walk(case["roots"]) if n["k"] == "B")
-    bsel = case.get("bsel")
+    """The requests of the two pool formulas: battery ids `bids` (default: every battery; the legacy key
+    `bsel` = inverter ids stands for the batteries of those inverters) and PV inverter ids `psel`."""
+    roots = case["roots"]
+    bats, pv, _ = device_ids(roots)
+    bats = sorted(set(bats))
+    if case.get("bids") is not None:
+        bids = sorted(set(case["bids"]) & set(bats))
+    elif case.get("bsel") is not None:
+        bids = sorted({b for n in walk(roots) if n["k"] == "B" and n["id"] in case["bsel"] for b in n["bats"]})
+    else:
+        bids = bats
     psel = case.get("psel")
-    return (binv if bsel is None else sorted(set(bsel) & set(binv))), (pv if psel is None else sorted(set(psel) & set(pv)))
+    return bids, (pv if psel is None else sorted(set(psel) & set(pv)))
+
+
+def pool_inverters(roots, bids):
+    """Inverters that are a predecessor of a requested battery, and whether the request is closed
+    (every battery behind such an inverter is requested; otherwise the generator must refuse)."""
+    inv = [n for n in walk(roots) if n["k"] == "B" and set(n["bats"]) & set(bids)]
+    return inv, all(set(n["bats"]) <= set(bids) for n in inv)
 
 
 def run_generators(case, graph=None):
@@ -263,7 +282,7 @@ def run_generators(case, graph=None):
                 rd[b] = None
     bats, pv, ev = device_ids(roots)
     fb = bool(case.get("fb", True))
-    bsel, psel = sel_of(case)
+    bids, psel = sel_of(case)
     FG = I.FG
     cfg = lambda ids=None: FG.FormulaGeneratorConfig(component_ids=ids, allow_fallback=fb)
     plan = {
@@ -275,8 +294,8 @@ def run_generators(case, graph=None):
         "pvids": (FG.PVPowerFormula, cfg(set(pv))),
         "ev": (FG.EVChargerPowerFormula, cfg(set(ev))),
         "chp": (FG.CHPPowerFormula, cfg()),
-        # pools over a subset: the batteries of the inverters case["bsel"], the PV inverters case["psel"]
-        "batsub": (FG.BatteryPowerFormula, cfg({b for n in walk(roots) if n["k"] == "B" and n["id"] in bsel for b in n["bats"]})),
+        # pools over a subset: the battery ids case["bids"], the PV inverters case["psel"]
+        "batsub": (FG.BatteryPowerFormula, cfg(set(bids))),
         "pvsub": (FG.PVPowerFormula, cfg(set(psel))),
     }
     obs = {}
@@ -343,9 +362,9 @@ def formula_vector(roots, f):
 
 def expected_vectors(roots, case=None):
     dev = {k: {n["id"]: 1 for n in walk(roots) if n["k"] == k} for k in "BPEC"}
-    bsel, psel = sel_of(case or {"roots": roots})
-    # only inverters that have a battery can be requested through battery ids
-    bsub = {n["id"]: 1 for n in walk(roots) if n["k"] == "B" and n["id"] in bsel and n["bats"]}
+    bids, psel = sel_of(case or {"roots": roots})
+    # the battery pool's devices: every inverter connected to a requested battery
+    bsub = {n["id"]: 1 for n in pool_inverters(roots, bids)[0]}
     psub = {i: 1 for i in psel} if psel else dev["P"]     # no ids given = all PV (DFS)
     cons = {-i: 1 for i in load_vars(roots)}
     prod = {**dev["P"], **dev["C"]}
@@ -386,7 +405,12 @@ def judge(case, obs, only_wf=True):
     for name in FORMULAS:
         f = obs[name]
         if "error" in f:
-            out.append({"what": f"{name}: generator raised {f['error']} on a valid tree", "finding": None})
+            closed = pool_inverters(roots, sel_of(case)[0])[1]
+            if not (name == "batsub" and not closed and f["error"] == "FormulaGenerationError"):
+                out.append({"what": f"{name}: generator raised {f['error']} on a valid tree", "finding": None})
+            continue
+        if name == "batsub" and not pool_inverters(roots, sel_of(case)[0])[1]:
+            out.append({"what": "batsub: a request that leaves out a battery behind one of its inverters was not refused", "finding": None})
             continue
         vec, bad = formula_vector(roots, f)
         vecs[name] = vec
@@ -438,13 +462,13 @@ def c_formula(f) -> str:
 
 HEADER = """From Verif Require Import model.Common model.Graph.
 (* the eight generated formulas, in the order of the harness: grid, consumer, producer, battery,
-   pv (DFS), pv (all inverter ids), ev, chp, battery pool over the batteries of the inverters bsel,
+   pv (DFS), pv (all inverter ids), ev, chp, battery pool over the battery ids bids,
    PV pool over the inverters psel; None = the generator raises *)
-Definition formulas (fb : bool) (roots : list node) (bsel psel : list Z) : list (option (list term)) :=
+Definition formulas (fb : bool) (roots : list node) (bids psel : list Z) : list (option (list term)) :=
   [grid_terms fb roots; Some (consumer_terms fb roots); Some (producer_terms fb roots);
    Some (battery_terms fb roots); Some (pv_terms fb roots); Some (pvids_terms fb roots);
    Some (ev_terms roots); chp_terms roots;
-   Some (battery_pool_terms fb roots bsel); Some (pv_pool_terms fb roots psel)].
+   battery_pool_terms fb roots bids; Some (pv_pool_terms fb roots psel)].
 (* same signed terms (id, sign, nones_are_zeros, fallback ids); same number, both when summing the
    readings of the nodes the terms name and when looking the ids up in the tree *)
 Definition check1 (roots : list node) (m : option (list term)) (e : option (list oterm * Z)) : bool :=
@@ -464,16 +488,16 @@ Fixpoint check_all (roots : list node) (ms : list (option (list term))) (es : li
    and what the harness believes about the premise and the F9 trigger *)
 Definition case_t : Type := (list node * bool * list Z * list Z * list (option (list oterm * Z)) * bool * bool)%type.
 Definition check (c : case_t) : bool :=
-  let '(roots, fb, bsel, psel, exp, py_wf, py_trig) := c in
-  check_all roots (formulas fb roots bsel psel) exp && Bool.eqb (wf roots) py_wf && Bool.eqb (f9_trigger roots) py_trig.
+  let '(roots, fb, bids, psel, exp, py_wf, py_trig) := c in
+  check_all roots (formulas fb roots bids psel) exp && Bool.eqb (wf roots) py_wf && Bool.eqb (f9_trigger roots) py_trig.
 """
 
 
 def case_term(case, obs) -> str:
     roots = case["roots"]
     exp = "[" + "; ".join(c_formula(obs[n]) for n in FORMULAS) + "]"
-    bsel, psel = sel_of(case)
-    return (f"(({c_roots(roots)}, {cbool(case.get('fb', True))}, {clist(bsel)}, {clist(psel)}, {exp}, "
+    bids, psel = sel_of(case)
+    return (f"(({c_roots(roots)}, {cbool(case.get('fb', True))}, {clist(bids)}, {clist(psel)}, {exp}, "
             f"{cbool(wf_tree(roots))}, {cbool(f9_trigger(roots))}) : case_t)")
 
 
@@ -613,13 +637,14 @@ def shrink_tree(case):
                 if n["load"]:
                     yield nodes[:i] + [{**n, "load": 0}] + nodes[i + 1:]
             elif n["k"] == "B" and len(n["bats"]) > 1:
-                yield nodes[:i] + [{**n, "bats": n["bats"][:1]}] + nodes[i + 1:]
+                for j in range(len(n["bats"])):
+                    yield nodes[:i] + [{**n, "bats": n["bats"][:j] + n["bats"][j + 1:]}] + nodes[i + 1:]
     for r in variants(roots):
         if r:
             yield {**case, "roots": r}
     if not case.get("fb", True):
         yield {**case, "fb": True}
-    for key in ("bsel", "psel"):
+    for key in ("bids", "bsel", "psel"):
         if case.get(key) is not None:
             yield {k: v for k, v in case.items() if k != key}
             for i in range(len(case[key])):
@@ -628,14 +653,67 @@ def shrink_tree(case):
 
 
 def with_subsets(case, rng):
-    """Choose the inverter subsets of the two pool formulas: usually a proper non-empty subset."""
-    binv = sorted(n["id"] for n in walk(case["roots"]) if n["k"] == "B")
-    pv = sorted(n["id"] for n in walk(case["roots"]) if n["k"] == "P")
-    for key, ids in (("bsel", binv), ("psel", pv)):
-        if ids and rng.random() < 0.8:
-            k = rng.randint(1, len(ids))
-            case[key] = sorted(rng.sample(ids, k))
+    """Choose the requests of the two pool formulas.  Battery pool: usually the batteries of a proper
+    non-empty subset of the inverters, closed under sharing (every inverter of a chosen battery brings
+    all its batteries); sometimes a request that is not closed (the generator must refuse it)."""
+    roots = case["roots"]
+    binv = [n for n in walk(roots) if n["k"] == "B" and n["bats"]]
+    pv = sorted(n["id"] for n in walk(roots) if n["k"] == "P")
+    if binv and rng.random() < 0.8:
+        bids = set()
+        for n in rng.sample(binv, rng.randint(1, len(binv))):
+            bids.update(n["bats"])
+        if rng.random() < 0.85:
+            changed = True
+            while changed:
+                changed = False
+                for n in binv:
+                    if set(n["bats"]) & bids and not set(n["bats"]) <= bids:
+                        bids.update(n["bats"])
+                        changed = True
+        elif len(bids) > 1 and rng.random() < 0.5:
+            bids.discard(rng.choice(sorted(bids)))
+        case["bids"] = sorted(bids)
+    if pv and rng.random() < 0.8:
+        case["psel"] = sorted(rng.sample(pv, rng.randint(1, len(pv))))
     return case
+
+
+def share_batteries(roots, rng, p=0.5):
+    """Let battery inverters below the same parent (a dedicated battery meter, a mixed meter, the grid)
+    SHARE batteries: every inverter gets a random non-empty subset of the siblings' battery ids, which
+    gives 1:N, N:1 and N:M cross-connections."""
+    for kids in [roots] + [n["kids"] for n in walk(roots) if n["k"] == "M"]:
+        inv = [n for n in kids if n["k"] == "B" and n["bats"]]
+        if len(inv) >= 2 and rng.random() < p:
+            pool = sorted({b for n in inv for b in n["bats"]})
+            if rng.random() < 0.3:
+                pool = pool[:max(1, len(pool) // 2)]
+            for n in inv:
+                n["bats"] = sorted(rng.sample(pool, rng.randint(1, min(len(pool), 3))))
+    return roots
+
+
+def sharing_labels(roots):
+    out = []
+    single = len(roots) == 1
+    for kids, where in [(roots, "at_grid")] + [(n["kids"], "behind_battery_meter" if dedicated(n) == "B" and not (single and n is roots[0])
+                                                 else "behind_mixed_or_grid_meter") for n in walk(roots) if n["k"] == "M"]:
+        inv = [n for n in kids if n["k"] == "B"]
+        cnt = {}
+        for n in inv:
+            for b in n["bats"]:
+                cnt[b] = cnt.get(b, 0) + 1
+        shared = {b for b, c in cnt.items() if c > 1}
+        if shared:
+            out.append(f"batteries_shared_{where}")
+            if any(len(n["bats"]) > 1 and set(n["bats"]) & shared for n in inv):
+                out.append("batteries_cross_connected(N:M)")
+            if any(set(n["bats"]) <= shared and len(n["bats"]) == 1 for n in inv):
+                out.append("inverter_with_only_a_shared_battery")
+    if any(n["k"] == "B" and len(n["bats"]) > 1 for n in walk(roots)):
+        out.append("inverter_with_several_batteries(1:N)")
+    return sorted(set(out))
 
 
 class TreeStream(Stream):
@@ -666,18 +744,36 @@ class TreeStream(Stream):
         for t in trees:
             for fb in (True, False):
                 yield {"roots": t, "fb": fb}
+        # shared batteries: inverter 4 -> batteries 8 and 10, inverter 5 -> battery 10 only (N:M), inverter 6 -> 11;
+        # behind a dedicated battery meter, behind a mixed meter, directly at the grid; N:1 and 1:N
+        X = lambda: [B(4, [8, 10], 700), B(5, [10], 400), B(6, [11], 30)]
+        shared = [
+            [M(2, [M(3, X()), P(7, -50)], 9)],
+            [M(2, [M(3, X() + [E(12, 5)], 6), P(7, -50)], 9)],
+            X() + [M(3, [], 6)],
+            [M(3, X())], [M(3, X()), E(7, 1)],
+            [M(2, [M(3, [B(4, [8], 1), B(5, [8], 2), B(6, [8], 3)])], 9)],
+            [M(2, [M(3, [B(4, [8, 9, 10], 1), B(5, [9, 11], 2), B(6, [11, 8], 3)])], 9)],
+        ]
+        for t in shared:
+            for fb in (True, False):
+                for bids in (None, [8, 10], [10, 8], [11], [10], [8]):
+                    c = {"roots": t, "fb": fb}
+                    if bids is not None:
+                        c["bids"] = bids
+                    yield c
 
     def gen(self, rng, tier):
         yield from self.boundary()
         ex = self.exhaustive_quick if tier == "quick" else self.exhaustive_thorough
         for shape in all_trees(ex):
             for fb in (True, False):
-                yield with_subsets({"roots": relabel(shape, rng), "fb": fb}, rng)
+                yield with_subsets({"roots": share_batteries(relabel(shape, rng), rng, 0.4), "fb": fb}, rng)
         n = self.n_quick if tier == "quick" else self.n_thorough
         for _ in range(n):
             valid = rng.random() < 0.8
             shape = gen_tree(rng, valid=valid)
-            yield with_subsets({"roots": relabel(shape, rng), "fb": rng.random() < 0.6}, rng)
+            yield with_subsets({"roots": share_batteries(relabel(shape, rng), rng), "fb": rng.random() < 0.6}, rng)
 
     def run_impl(self, case):
         return run_generators(case)
@@ -686,8 +782,8 @@ class TreeStream(Stream):
         return case_term(case, obs)
 
     def show_term(self, case, obs):
-        bsel, psel = sel_of(case)
-        return f"(formulas {cbool(case.get('fb', True))} {c_roots(case['roots'])} {clist(bsel)} {clist(psel)}, wf {c_roots(case['roots'])}, f9_trigger {c_roots(case['roots'])})"
+        bids, psel = sel_of(case)
+        return f"(formulas {cbool(case.get('fb', True))} {c_roots(case['roots'])} {clist(bids)} {clist(psel)}, wf {c_roots(case['roots'])}, f9_trigger {c_roots(case['roots'])})"
 
     def shrink(self, case):
         return shrink_tree(case)
@@ -724,13 +820,20 @@ class TreeStream(Stream):
         for k in "BPEC":
             if any(n["k"] == k for n in nodes):
                 out.append(f"has_{k}")
-        bsel, psel = sel_of(case)
-        for nm, sel, kind in (("battery", bsel, "B"), ("pv", psel, "P")):
-            allk = [n["id"] for n in nodes if n["k"] == kind]
-            if sel and len(sel) < len(allk):
-                out.append(f"{nm}_pool_proper_subset")
-                if any(dedicated(m) == kind and 0 < sum(k["id"] in sel for k in m["kids"]) < len(m["kids"]) for m in meters):
-                    out.append(f"{nm}_pool_subset_splits_a_dedicated_meter")
+        bids, psel = sel_of(case)
+        allb = {b for n in nodes if n["k"] == "B" for b in n["bats"]}
+        inv, closed = pool_inverters(roots, bids)
+        if bids and len(bids) < len(allb):
+            out.append("battery_pool_proper_subset" if closed else "battery_pool_request_not_closed")
+            sel = {n["id"] for n in inv}
+            if closed and any(dedicated(m) == "B" and 0 < sum(k["id"] in sel for k in m["kids"]) < len(m["kids"]) for m in meters):
+                out.append("battery_pool_subset_splits_a_dedicated_meter")
+        allp = [n["id"] for n in nodes if n["k"] == "P"]
+        if psel and len(psel) < len(allp):
+            out.append("pv_pool_proper_subset")
+            if any(dedicated(m) == "P" and 0 < sum(k["id"] in psel for k in m["kids"]) < len(m["kids"]) for m in meters):
+                out.append("pv_pool_subset_splits_a_dedicated_meter")
+        out += sharing_labels(roots)
         return out
 
 
@@ -790,7 +893,7 @@ def mutate_tree(roots, rng, graveyard):
                 graveyard.extend(x["bats"])
 
     for _ in range(rng.choice([1, 1, 2, 3])):
-        op = rng.choice(["add", "add", "remove", "move", "kind", "wrap", "unwrap", "meter", "add_same"])
+        op = rng.choice(["add", "add", "remove", "move", "kind", "wrap", "unwrap", "meter", "add_same", "share"])
         meters = [n for n in walk(roots) if n["k"] == "M"]
         if op == "add":
             rng.choice(places()).append(new_dev(rng.choice("BPE")))
@@ -799,6 +902,15 @@ def mutate_tree(roots, rng, graveyard):
             if ded:
                 m = rng.choice(ded)
                 m["kids"].append(new_dev(dedicated(m)))
+        elif op == "share":             # two sibling inverters get a common battery / lose the sharing
+            cand = [[n for n in p if n["k"] == "B" and n["bats"]] for p in places()]
+            cand = [c for c in cand if len(c) >= 2]
+            if cand:
+                a, b = rng.sample(rng.choice(cand), 2)
+                if set(a["bats"]) & set(b["bats"]):
+                    b["bats"] = [fresh()]
+                else:
+                    b["bats"] = sorted(set(b["bats"]) | {rng.choice(a["bats"])}) if rng.random() < 0.5 else [rng.choice(a["bats"])]
         elif op == "remove":
             pl = [p for p in places() if p and not (p is roots and len(roots) == 1)]
             if pl:
@@ -883,13 +995,18 @@ class RefreshStream(Stream):
                 yield {"steps": [{"roots": t, "fb": fb} for t in seq]}
         yield {"steps": [{"roots": seqs[5][0], "fb": True, "bsel": [4]}, {"roots": seqs[5][1], "fb": True, "bsel": [4]},
                          {"roots": seqs[5][1], "fb": True}]}
+        # a battery becomes shared by a second inverter across a refresh, and is unshared again
+        s1 = [M(2, [M(3, [B(4, [8, 10], 700), B(5, [11], 400)])], 9)]
+        s2 = [M(2, [M(3, [B(4, [8, 10], 700), B(5, [10], 400)])], 9)]
+        for fb in (True, False):
+            yield {"steps": [{"roots": s1, "fb": fb}, {"roots": s2, "fb": fb}, {"roots": s1, "fb": fb, "bids": [11]}]}
 
     def gen(self, rng, tier):
         yield from self.boundary()
         n = self.n_quick if tier == "quick" else self.n_thorough
         for _ in range(n):
             fb = rng.random() < 0.7
-            t = relabel(gen_tree(rng, max_nodes=7, valid=rng.random() < 0.9), rng)
+            t = share_batteries(relabel(gen_tree(rng, max_nodes=7, valid=rng.random() < 0.9), rng), rng, 0.4)
             grave = []
             steps = [with_subsets({"roots": t, "fb": fb}, rng)]
             for _k in range(rng.choice([1, 2, 2])):
@@ -912,8 +1029,8 @@ class RefreshStream(Stream):
     def show_term(self, case, obs):
         parts = []
         for st in case["steps"]:
-            bsel, psel = sel_of(st)
-            parts.append(f"formulas {cbool(st.get('fb', True))} {c_roots(st['roots'])} {clist(bsel)} {clist(psel)}")
+            bids, psel = sel_of(st)
+            parts.append(f"formulas {cbool(st.get('fb', True))} {c_roots(st['roots'])} {clist(bids)} {clist(psel)}")
         return "[" + "; ".join(parts) + "]"
 
     def shrink(self, case):
@@ -957,4 +1074,11 @@ class RefreshStream(Stream):
                 out.append("component_added")
             if set(ka) - set(kb):
                 out.append("component_removed")
+            sa, sb = sharing_labels(a["roots"]), sharing_labels(b["roots"])
+            if any("shared" in x for x in sb) and not any("shared" in x for x in sa):
+                out.append("battery_becomes_shared")
+            if any("shared" in x for x in sa) and not any("shared" in x for x in sb):
+                out.append("battery_no_longer_shared")
+        for st in steps:
+            out += sharing_labels(st["roots"])
         return sorted(set(out))
